@@ -51,6 +51,9 @@ func TestC08_P_Differential(t *testing.T) {
 			es[i] = entryFor(n, salt)
 		}
 		es = rapid.Permutation(es).Draw(t, "order")
+		if rapid.IntRange(0, 3).Draw(t, "otherHashPrelude") == 0 {
+			must(t, "builds with another name-hash function", func() { otherBuilds(salt) }) // history: must not affect what follows
+		}
 		st := NewStore()
 		var got cid.Cid
 		var gsz uint64
@@ -195,7 +198,7 @@ func TestC08_P_ReferenceHistories(t *testing.T) {
 					cerr = fmt.Errorf("reify: %w", err)
 					return
 				}
-				cerr = checkDirIsMap(dir, model, nonMembers)
+				cerr = checkDirIsMapOpt(dir, model, nonMembers, len(model)%2 == 0)
 			})
 			if cerr != nil {
 				t.Fatalf("C08: reference-written HAMT (fanout %d, %d entries, history %v) read via %s: %v", fanout, len(model), keys(classes), reifier, cerr)
